@@ -451,6 +451,8 @@ def gen_leaf(rng, dtype, small=True):
     if dtype == "bool":
         return rng.random() < 0.5
     if dtype.startswith("float"):
+        if SPECIAL_P and rng.random() < SPECIAL_P:
+            return rng.choice([0.0, 0.0, float("inf"), float("-inf"), float("nan"), 1.0, -2.0])
         r = rng.random()
         if r < 0.08:
             return float("nan")
@@ -471,6 +473,7 @@ def gen_leaf(rng, dtype, small=True):
 
 
 EXTREME_P = 0.0
+SPECIAL_P = 0.0     # share of floating-point leaves drawn from {0, +-inf, nan, 1, -2} (set by the reducer families)
 
 
 STR_ALPHABET = "abAB z"
